@@ -294,3 +294,33 @@ def stage_teardown_stress(pid, tier, seed, d, binp, st, ctx):
     return dict(coverage={"iterations": iters, "asks_racing_teardown": asks, "runs_with_pending": hung, "runs_judged_by_tlc": nruns},
                 violations=viol, traces=iters, samples=[{"stage": "teardown", "iterations": iters, "askers": 6}],
                 nontrivial_keys=["td%d" % i for i in range(min(iters, 1000))])
+
+
+def stage_liveness(pid, tier, seed, d, binp, st, ctx):
+    """Live.tla: temporal properties of RsActor.tla under weak fairness, no state constraint."""
+    import plans as _p
+    consts = dict(_p.BASE)
+    consts.update(st["consts"][tier])
+    props = st["props"]
+    mod = "Live_" + st["cfgname"]
+    body = ["---- MODULE %s ----" % mod, "EXTENDS Live"]
+    for k in ("ActorSeq", "ClientSeq"):
+        body.append("k_%s == %s" % (k, _p.tla_value(consts[k], seq=True)))
+    body.append("====")
+    open(os.path.join(d, mod + ".tla"), "w").write("\n".join(body) + "\n")
+    lines = ["SPECIFICATION Spec", "CHECK_DEADLOCK FALSE", "PROPERTIES " + " ".join(props), "CONSTANTS"]
+    for k, v in consts.items():
+        lines.append("  %s <- k_%s" % (k, k) if k in ("ActorSeq", "ClientSeq") else "  %s = %s" % (k, _p.tla_value(v)))
+    open(os.path.join(d, mod + ".cfg"), "w").write("\n".join(lines) + "\n")
+    p = subprocess.run(JAVA[:2] + ["-Xmx12g"] + JAVA[4:] + ["-workers", str(min(12, os.cpu_count() or 4)), "-metadir", os.path.join(d, "meta_" + mod),
+                        "-noGenerateSpecTE", "-config", mod + ".cfg", mod + ".tla"],
+                       cwd=d, text=True, stdout=subprocess.PIPE, stderr=subprocess.STDOUT, timeout=st.get("timeout", 3000))
+    out = p.stdout
+    m = re.findall(r"(\d[\d,]*) states generated, (\d[\d,]*) distinct states found", out)
+    g, ds = (int(m[-1][0].replace(",", "")), int(m[-1][1].replace(",", ""))) if m else (0, 0)
+    if "Model checking completed. No error has been found." not in out:
+        open(os.path.join(d, mod + ".out"), "w").write(out)
+        raise ctx["ToolError"]("MODEL FAILURE: liveness %s not established on RsActor.tla (see %s.out)" % (props, mod))
+    ctx["log"]("liveness %s: %s hold under fairness on %d states" % (st["cfgname"], props, ds))
+    return dict(coverage={"temporal_properties": props, "states": ds, "transitions": g, "fairness": "WF per actor burst, per client poll, clock"},
+                violations=[], traces=0, states=ds, transitions=g, samples=[], nontrivial_keys=[])
